@@ -275,8 +275,15 @@ func unzipFile(filePath string, f *zip.File) error {
 	}
 	defer in.Close()
 
-	out, err := os.OpenFile(filePath,
-		os.O_CREATE|os.O_WRONLY|os.O_EXCL,
+	if _, err := os.Lstat(filePath); err == nil {
+		return &os.PathError{Op: "open", Path: filePath, Err: os.ErrExist}
+	}
+	// Write to a temporary file, and rename it once it is complete, so that
+	// filePath, which is not written again if it exists, is never left
+	// empty or truncated if the process is interrupted.
+	tmpPath := filePath + ".tmp"
+	out, err := os.OpenFile(tmpPath,
+		os.O_CREATE|os.O_WRONLY|os.O_TRUNC,
 		f.Mode())
 	if err != nil {
 		return err
@@ -284,9 +291,14 @@ func unzipFile(filePath string, f *zip.File) error {
 	defer out.Close()
 
 	if _, err := io.Copy(out, in); err != nil {
+		os.Remove(tmpPath)
 		return err
 	}
-	return nil
+	if err := out.Close(); err != nil {
+		os.Remove(tmpPath)
+		return err
+	}
+	return os.Rename(tmpPath, filePath)
 }
 
 func Unzip(zipPath string) error {
